@@ -90,7 +90,7 @@ def shape(log):
 
 def check_steps():
     out = []
-    for fn in (c_proximal, c_inexact_gradient, c_linesearch, c_inexact_proximal, c_epsilon_subgradient,
+    for fn in (c_proximal, c_zero_step, c_inexact_gradient, c_linesearch, c_inexact_proximal, c_epsilon_subgradient,
                c_bregman_gradient, c_bregman_proximal, c_linear_optimization):
         try:
             out += fn()
@@ -117,6 +117,22 @@ def c_proximal():
     k.exactly('recorded_is_returned', (t[0] is x, t[1] is gx, t[2] is fx), (True, True, True), 'the recorded triplet is (x, g, fx): g is a subgradient AT x')
     k.exactly('fresh', (gx.leaf is not None and gx.leaf != x0.leaf, fx.leaf is not None), (True, True), 'g and fx are new leaves')
     return k.obs
+
+
+def c_zero_step():
+    """step size exactly 0 (python int and float), the one value a symbolic step size never takes: the step is still an evaluation of f at the returned point"""
+    out = []
+    for label, gamma in (('int-zero', 0), ('float-zero', 0.0)):
+        step = load_step('proximal_step')
+        f, x0 = SFunc('f'), S.WORLD.point('x0')
+        x, gx, fx = step(x0, f, gamma)
+        k = StepCheck('proximal_step', label)
+        k.same_point('relation', x, x0, [], 'x = x0 - 0 g = x0')
+        k.exactly('records', shape(f.log), ['add_point'], 'exactly one sample recorded on f and nothing else')
+        t = f.log[0][1] if f.log else (None, None, None)
+        k.exactly('recorded_is_returned', (t[0] is x, t[1] is gx, t[2] is fx), (True, True, True), 'the recorded triplet is (x, g, fx)')
+        out += k.obs
+    return out
 
 
 def c_inexact_gradient():
